@@ -2,6 +2,7 @@
 //!   <input numbers>\t<implementation output numbers>\t<signature>
 //! The input numbers start with the component number understood by `mrun` (the extracted model).
 mod codec;
+mod io;
 mod rng;
 mod transport;
 
@@ -73,6 +74,7 @@ fn main() {
     std::panic::set_hook(Box::new(|_| {}));
     match comp {
         "codec" => codec::run(seed, count, &extra, &mut out),
+        "io" => io::run(seed, count, &extra, &mut out),
         _ => {
             eprintln!("unknown component {comp}");
             std::process::exit(2);
